@@ -56,6 +56,36 @@ def serve_in_child(spec, h):
     return pickle.loads(b''.join(chunks))
 
 
+def measure_in_child(what, kind, n, seed):
+    """retention / growth measurements in a child with a small heap of its own"""
+    import random
+    from harness import c09
+    r, w = os.pipe()
+    pid = os.fork()
+    if pid == 0:
+        try:
+            os.close(r)
+            chk = c09.C09()
+            try:
+                fn = {'retention': chk._retention, 'growth': chk._growth, 'class-state': chk._class_state}[what]
+                res = fn(kind, n, random.Random(seed))
+            except BaseException as e:   # noqa
+                res = ('EXC', repr(e))
+            os.write(w, pickle.dumps(res))
+        finally:
+            os._exit(0)
+    os.close(w)
+    chunks = []
+    while True:
+        c = os.read(r, 65536)
+        if not c:
+            break
+        chunks.append(c)
+    os.close(r)
+    os.waitpid(pid, 0)
+    return pickle.loads(b''.join(chunks))
+
+
 def main():
     from harness import c09   # noqa
     # import the code under test (and what serving needs) here, so that the children do not pay for
@@ -70,6 +100,9 @@ def main():
         msg = _read(inp)
         if msg is None:
             break
+        if msg[0] == 'measure':
+            _write(out, measure_in_child(*msg[1:]))
+            continue
         spec, hs = msg
         _write(out, [serve_in_child(spec, h) for h in hs])
 
@@ -87,6 +120,13 @@ class Reference:
 
     def serve(self, spec, hs):
         _write(self.p.stdin, (spec, list(hs)))
+        res = _read(self.p.stdout)
+        if res is None:
+            raise RuntimeError('reference process died')
+        return res
+
+    def measure(self, what, kind, n, seed):
+        _write(self.p.stdin, ('measure', what, kind, n, seed))
         res = _read(self.p.stdout)
         if res is None:
             raise RuntimeError('reference process died')
